@@ -299,6 +299,9 @@ class Buffer:
             # TODO create an object method to update the hot buffer
             self.hot[b].observations['stored'].append(current_obs)
             self.hot[b].observations['transfer'] = None
+            # nothing is in flight: run() adds this amount to the hot buffer's
+            # free space when it decides whether data may come back from cold
+            self._data_left_to_transfer = 0
             return False
         self._add_event(current_obs, "transfer", "started")
         while True:
